@@ -45,8 +45,10 @@ var envFuncs = map[string][]string{
 	"math/rand":    {"*"},
 	"math/rand/v2": {"*"},
 	"crypto/rand":  {"*"},
-	"os":           {"Getenv", "LookupEnv", "Environ", "Getpid", "Getppid", "Hostname", "Getwd", "Getuid", "Getgid", "TempDir", "UserHomeDir"},
+	"os":           {"Getenv", "LookupEnv", "Environ", "Getpid", "Getppid", "Hostname", "Getwd", "Getuid", "Getgid", "TempDir", "UserHomeDir", "Executable"},
 	"runtime":      {"NumCPU", "GOMAXPROCS", "NumGoroutine"},
+	// the working directory / location of the binary
+	"path/filepath": {"Abs"},
 }
 
 // hiddenIter: functions whose result enumerates a map in runtime order.
